@@ -2,6 +2,7 @@ import Driver.Ts
 import Driver.Orswot
 import Driver.Rpc
 import Driver.Node
+import Driver.Store
 /- `dcdriver`: reads a case file on stdin, answers every line with the model's output. -/
 namespace Driver
 
@@ -11,6 +12,7 @@ inductive Dom where
   | orswot (s : OrswotDom.State)
   | rpc (s : RpcDom.State)
   | node (s : NodeDom.State)
+  | store (s : StoreDom.State)
 
 def newDom (name : String) (params : List String) : Dom :=
   match name with
@@ -18,6 +20,7 @@ def newDom (name : String) (params : List String) : Dom :=
   | "orswot" => .orswot (OrswotDom.init params)
   | "rpc" => .rpc {}
   | "node" => .node {}
+  | "store" => .store {}
   | _ => .none
 
 def stepDom (d : Dom) (toks : List String) : Dom × String :=
@@ -27,6 +30,7 @@ def stepDom (d : Dom) (toks : List String) : Dom × String :=
   | .orswot s => let (s', o) := OrswotDom.step s toks; (.orswot s', o)
   | .rpc s => let (s', o) := RpcDom.step s toks; (.rpc s', o)
   | .node s => let (s', o) := NodeDom.step s toks; (.node s', o)
+  | .store s => let (s', o) := StoreDom.step s toks; (.store s', o)
 
 partial def loop (h : IO.FS.Stream) (out : IO.FS.Stream) (d : Dom) : IO Unit := do
   let line ← h.getLine
